@@ -73,6 +73,7 @@ func C01(c *core.Ctx) {
 	c.RuleText = "instances: every call of processOutgoingData / SendData / AfterReceiveData / AfterContentStoreHit discovered in the program, every Strategy implementation, the appends and returns of the PIT match functions. Non-trivial = has a provenance leaf set, branch edge or path to decide."
 	p := c.P
 	c01Round4(c)
+	c01TokenStorage(c)
 	// ---- R1.9 (shared with C08 R8.2) a removed PIT entry is no longer reachable through
 	// its token: otherwise Data carrying that token is matched against a dead entry and
 	// delivered to faces whose Interest is no longer pending
@@ -1129,4 +1130,82 @@ func c01Round4(c *core.Ctx) {
 		})
 		c.Decide(nRet > 0 && badRet == "", "R1.15", "every-answer-includes-the-empty-prefix", p.Pos(hp.Pos()), fmt.Sprintf("%d returns, each after the full scan or after marking the thread of the zero-component name", nRet), "HashNameToAllPrefixFwThreads can answer (return at "+badRet+") without the thread of the zero-component name — e.g. the /localhost shortcut that names thread 0 only: token-less /localhost Data never reaches an Interest for / with CanBePrefix, which is pending in the thread the empty name hashes to")
 	}
+}
+
+// c01TokenStorage — R1.17 "echoes the PIT token this forwarder attached when it forwarded
+// that Interest": the token given to an outgoing Interest lives in storage made for that
+// packet. The link service queues the outgoing packet and encodes it later, in its send
+// goroutine: a token that is a slice of a buffer the thread reuses (a per-thread scratch
+// array) is overwritten by the next Interest forwarded before the first is encoded — both
+// leave with the same token and the Data that comes back is matched to the wrong entry.
+// Every store to the PitToken field of a packet built in processOutgoingInterest takes a
+// slice made in that call.
+func c01TokenStorage(c *core.Ctx) {
+	p := c.P
+	fn := c.Fn("R1.17", "fw/fw", "Thread", "processOutgoingInterest")
+	if fn == nil {
+		return
+	}
+	n, bad := 0, ""
+	core.InstrsDeep(fn, func(in ssa.Instruction) {
+		st, ok := in.(*ssa.Store)
+		if !ok {
+			return
+		}
+		fa, ok := st.Addr.(*ssa.FieldAddr)
+		if !ok {
+			return
+		}
+		if _, f := core.FieldAddrName(fa); f != "PitToken" {
+			return
+		}
+		if core.IsNilConst(core.Strip(st.Val)) {
+			return
+		}
+		n++
+		seen := map[ssa.Value]bool{}
+		var walk func(v ssa.Value, d int)
+		walk = func(v ssa.Value, d int) {
+			v = core.Strip(v)
+			if v == nil || seen[v] || d > 6 {
+				return
+			}
+			seen[v] = true
+			switch x := v.(type) {
+			case *ssa.MakeSlice:
+			case *ssa.Const:
+			case *ssa.Slice:
+				// a slice of an array made in the call is fine; of a field is not
+				if al, isAl := core.Strip(x.X).(*ssa.Alloc); isAl && al.Parent() == x.Parent() {
+					return
+				}
+				if _, isMk := core.Strip(x.X).(*ssa.MakeSlice); isMk {
+					return
+				}
+				walk(x.X, d+1)
+			case *ssa.Phi:
+				for _, e := range x.Edges {
+					walk(e, d+1)
+				}
+			case *ssa.Call:
+				if b, isB := x.Call.Value.(*ssa.Builtin); isB && b.Name() == "append" {
+					walk(x.Call.Args[0], d+1)
+					return
+				}
+				if _, okC := core.IsCall(x, core.CalleeID{Pkg: "slices", Name: "Clone"}, core.CalleeID{Pkg: "bytes", Name: "Clone"}); okC {
+					return
+				}
+				bad = "result of a call at " + c.Pos(x)
+			default:
+				if _, path := core.FieldPath(v); len(path) > 0 {
+					bad = "storage of the field " + strings.Join(path, ".") + " (kept between packets) at " + c.Pos(in)
+				} else {
+					bad = "storage of unknown origin at " + c.Pos(in)
+				}
+			}
+		}
+		walk(st.Val, 0)
+	})
+	c.Decide(bad == "", "R1.17", "outgoing-token-has-storage-of-its-own", p.Pos(fn.Pos()), fmt.Sprintf("%d token(s) given to an outgoing Interest, each a slice made in the call", n), "processOutgoingInterest gives the outgoing packet a PIT token that lives in "+bad+": the link service encodes the queued packet later, after the next Interest has rewritten that storage — two Interests of different PIT entries leave with one token, the returning Data goes to a face waiting for another name and the right face gets nothing")
+	c.Floor("R1.17", "PIT tokens stored into outgoing Interest packets", n, 1)
 }
